@@ -34,7 +34,10 @@ def run(chk):
     valid = [p for i, p in enumerate(progs) if res["debug"][f"v{i}"].startswith("ok ")]
     cases = []
     PRELUDES = ["", "", "say \"one\ntwo\"'s \"x\"\n", "say \"a\nb\nc\"'re \"x\"\n", "(a comment\nover two lines)\nsay 1\n",
-                "say 1 (trailing\ncomment)'s 2\n", "say \"multi\nline\"\n", "X says \"quoted\" (closed)\n"]
+                "say 1 (trailing\ncomment)'s 2\n", "say \"multi\nline\"\n", "X says \"quoted\" (closed)\n",
+                # multi-line tokens whose body ends with a line break (the closing delimiter starts a line), or is nothing but line breaks
+                "(a comment\n)\nsay 1\n", "say \"text\n\"\n", "(\n\n)\nsay 1\n", "say \"\n\"\n", "(x\n\n) say 1\n", "say \"a\n\n\"'s \"b\"\n",
+                "(\n) (\n)\nsay 1\n", "say \"\n\n\n\"\n"]
     for p in valid:
         pre = rng.choice(PRELUDES)
         npre = pre.count("\n")
